@@ -352,3 +352,14 @@ where
         Poll::Pending
     }
 }
+
+/// Verification hooks: compiled only with `--cfg eigerco_lumina_verif` (see /verif).
+#[cfg(eigerco_lumina_verif)]
+#[doc(hidden)]
+#[allow(unused_imports, missing_docs, dead_code, unreachable_pub)]
+pub mod verif {
+    use super::*;
+    pub use super::codec::verif as codec;
+    pub use super::pool_tracker::verif as pool_tracker;
+    pub use super::client::verif as client;
+}
